@@ -14,6 +14,7 @@ import (
 	"encoding/json"
 	"fmt"
 	"regexp"
+	"sort"
 	"strings"
 	"testing"
 	"unicode/utf8"
@@ -213,7 +214,7 @@ func runScriptWith(r *kit.Rec) func(c ScriptCase, cc *kit.Case) {
 
 func TestScript(t *testing.T) {
 	r := kit.NewRec("C13", "Script", ruleScript, assumptionsScript...)
-	kit.Check(t, r, genScript, runScriptWith(r))
+	kit.Check(t, r, genScriptWith(r), runScriptWith(r))
 }
 
 func TestReplayScript(t *testing.T) {
@@ -314,11 +315,10 @@ func pipelineTickLaw(c ScriptCase, p *pipeline.Pipeline, fp Fingerprint, cc *kit
 	cc.Label("tick-roundtrip-checked")
 }
 
-func genPipelineCase(t *rapid.T) ScriptCase { return genScript(t) }
 
 func TestPipeline(t *testing.T) {
 	r := kit.NewRec("C13", "Pipeline", rulePipeline, assumptionsPipeline...)
-	kit.Check(t, r, genPipelineCase, runPipeline)
+	kit.Check(t, r, genScriptWith(r), runPipeline)
 }
 
 func TestReplayPipeline(t *testing.T) {
@@ -329,8 +329,9 @@ func TestReplayPipeline(t *testing.T) {
 // ---------------------------------------------------------------- Lambda unit
 
 type LambdaCase struct {
-	E       *Expr  `json:"e"`
-	Text    string `json:"text"`              // the expression as source text (required parentheses + noise)
+	E       *Expr    `json:"e"`
+	Text    string   `json:"text"`             // the expression as source text (required parentheses + noise)
+	Labels  []string `json:"labels,omitempty"` // generator-side classes (operators, literal forms, comment positions)
 	Witness bool   `json:"witness,omitempty"` // saved witness of a known defect: no law is skipped
 }
 
@@ -363,12 +364,17 @@ var assumptionsLambda = []string{
 
 func genLambda(t *rapid.T) LambdaCase {
 	g := &eg{t: t, idents: true}
-	d := rapid.IntRange(0, 4).Draw(t, "depth")
+	d := rapid.IntRange(0, 5).Draw(t, "depth")
 	e := g.any(d)
 	noise := rapid.SampledFrom([]int{0, 1, 2}).Draw(t, "noise")
 	o := newOut(t, noise, rapid.Bool().Draw(t, "comments"))
 	o.expr(e)
-	return LambdaCase{E: e, Text: o.finish()}
+	c := LambdaCase{E: e, Text: o.finish()}
+	for l := range o.labels {
+		c.Labels = append(c.Labels, l)
+	}
+	sort.Strings(c.Labels)
+	return c
 }
 
 func jsonRoundTrip(l *ast.LambdaNode) (out *ast.LambdaNode, b []byte, err error) {
@@ -543,6 +549,9 @@ func runLambda(r *kit.Rec, c LambdaCase, cc *kit.Case) {
 		cc.Label("needs-parens")
 	}
 	cc.Label(fmt.Sprintf("ops:%d", min(ops, 8)))
+	for _, l := range c.Labels {
+		cc.Label(l)
+	}
 	wantNode, err := build(c.E, buildOpts{parens: true, literals: true})
 	if err != nil {
 		cc.Fail("harness/build", "cannot build expression: %v", err)
